@@ -11,6 +11,10 @@ TECH = ('explicit TLA+ specification model-checked with TLC; TLC-emitted '
 
 # property id -> (design_ref, level text, level note, technique suffix)
 CLAIMED = {
+    'C16': ('5/C16, 3.9',
+            'spec/Lookup.tla states, for every configuration (strictly monotone coordinate in either direction, bounds given as none / 1-D edges / n x 2, method nearest|bounds|exact, clean, bounds=ignore|warn|error, left/right None|nan), the set of observations the property allows for a probe value (both neighbours at ties and interior edges, mask/warn/raise rules out of range). Lookup_MC enumerates all configurations over a lattice (coordinate length 2-3 quick, 2-4 thorough), checks satisfiability and sharpness invariants of those sets and emits the configurations; each is replayed on val2idx with one call per probe (centres, edges, edge+-1, far outside; plus random longer non-uniform coordinates) and Lookup_Trace checks every observation (index | masked | raised, warning flag) and that the coordinate is unchanged.',
+            'Trusted: TLC, the observation logging (warnings are captured from stderr because the library installs its own showwarning). Coordinates/probes are small integers (exact in float64). Clamping to the end cell with bounds=ignore/warn and left/right=None is accepted as documented behaviour. Datetime front-end time2idx is covered through C12 (date2num round trip) rather than here.',
+            'configuration enumeration + lookup observations validated'),
     'C12': ('5/C12, 3.4',
             'spec/Calendar.tla (civil <-> day number for standard/noleap/all_leap, YYYYJJJ, HHMMSS, unit offsets) is model-checked by Calendar_MC over every day 1900-2101 (round trip, successor-day, Julian, year-length laws); spec/TimeDecode_Trace.tla computes the expected instants of every recorded getTimes() on generated files (CF units x 15 reference spellings x 4 units x 8 calendar attributes x offsets up to 200 years incl. quarter units; TFLAG; SDATE/STIME/TSTEP; tau0; bounds=True) and checks date2num(getTimes()), time2idx(getTimes()) and the CF time variable synthesised from IOAPI metadata.',
             'Trusted: the TLA+ calendar (proleptic Gregorian = CF standard after 1582), civil-tuple projection of datetimes. Offsets are multiples of 1/4 unit (exact in float64). 360_day/julian calendars are not claimed by the library. Known finding C12_K1 (365/366-day calendars) is reported as KNOWN-FINDING; its deviation signature excludes the sub-domain where the branch is right.',
